@@ -113,6 +113,14 @@ TDied ==
     /\ obs' = [k |-> "died"]
     /\ UNCHANGED <<classes, methods, defs, inst, fresh, handler, vps, dead>>
 
+(* an observation the harness refused to make because it would not be a     *)
+(* legal use (no successful update since the last catalog change)           *)
+TSkip ==
+    /\ IsEvent("skip")
+    /\ KeepLay
+    /\ ~(fresh[Ev.p] /\ inst[Ev.p].ok)
+    /\ UNCHANGED vars
+
 (* end of one execution (appended by the parent of the executing child):   *)
 (* an aborting outcome must have been followed by the death of the child   *)
 TEnd ==
@@ -195,7 +203,7 @@ TNext ==
 
 TNextStep ==
     \/ TReset \/ TClass \/ TUnclass \/ TMethod \/ TUnmethod \/ TDef \/ TUndef \/ THandler
-    \/ TUpdate \/ TTable \/ TCTable \/ TResolve \/ TCall \/ TDied \/ TNext \/ TEnd \/ TLayout \/ TReads
+    \/ TUpdate \/ TTable \/ TCTable \/ TResolve \/ TCall \/ TDied \/ TNext \/ TEnd \/ TLayout \/ TReads \/ TSkip
 
 TSpec == TInit /\ [][TNextStep]_tvars
 
